@@ -1,86 +1,421 @@
-import ZipVerif.Props.C12
+import ZipVerif.Lemmas.WLOrigin
+import ZipVerif.Props.C03
 /-
-C01 — Write then read returns exactly what was written.
+C01 — What the writer writes, the reader reads back (Level 1).
 
-First layer (this file, until the writer-emits-layout development `Lemmas/WL*.lean` is merged):
-* `finish_eq_drop`: `finish()` and dropping the writer leave identical bytes in the sink, for every
-  state, device and fault index on which finalisation succeeds;
-* `directory_is_the_calls_partial`: what `finish()` writes as the central directory is exactly the log
-  of successful creations with the CRC-32 / length of the bytes successfully written (C12's tracking
-  theorem, restated);
-* kernel-evaluated round trips of concrete call sequences through writer model and reader model
-  (TESTS of the composition, labelled as such).
-The archive-level theorem (`write_read_roundtrip`: the reader model applied to the sink returns these
-entries) is the subject of `Lemmas/WL*.lean`.
+The basis is `writer_emits_layout`: on a fault-free sink, after any script of Level-1 calls
+(`start_file`, `add_directory`, `add_symlink` — unencrypted —, `write`, `set_comment`,
+`raw_copy_file`, misuse of the extra-data calls), if `finish` returns `Ok` the live part of the sink
+is EXACTLY `Spec.Zip.build (WL.layoutOf es gap comment [])`, where the entries `es`, the dead bytes
+`gap` and the comment are computed from the calls and their outcomes alone by the ghost fold
+`WL.ghostOf` (Lemmas/WLRun.lean).  Composed with C03 (`reader_on_wf`, `reader_entry_*`) this gives
+the round trip.
+
+Lemma layers: `Lemmas/WLBytes.lean` (`writeAt`, live part of a device), `Lemmas/WLRecords.lean`
+(serialisers = specification records), `Lemmas/WLSteps.lean` (internal writer functions),
+`Lemmas/WLRun.lean` (ghost state, invariant `Lay`, one lemma per call, induction over scripts).
 -/
 
 namespace ZipVerif.Props.C01
-open ZipVerif ZipVerif.Model
+open ZipVerif ZipVerif.Model ZipVerif.Spec.Zip ZipVerif.WL
+open ZipVerif.Props.C12 (Call step runCalls)
 
-/-- `finish` = `finalize`, then (purely) closing the writer. -/
-theorem finish_device (ext : WExt) (s : WState) (fa : Option Nat) (d : Dev) :
-    (finish ext s fa d).2 = (finalize ext s fa d).2 := by
-  unfold finish
-  rw [M.bind_apply]
-  cases h : finalize ext s fa d with
-  | mk o d1 =>
-    cases o with
-    | ok rs =>
-      obtain ⟨r, s1⟩ := rs
-      cases r with
-      | error e => rfl
+/-! ## 1. The writer emits a layout -/
+
+theorem build_trailing (es : List Spec.Zip.Entry) (gap c t : Bytes) :
+    build (layoutOf es gap c t) = build (layoutOf es gap c []) ++ t := by
+  have e1 : (layoutOf es gap c t).end64 = (layoutOf es gap c []).end64 := rfl
+  have e2 : (layoutOf es gap c t).eocd = (layoutOf es gap c []).eocd := rfl
+  have e3 : (layoutOf es gap c t).cdBytes = (layoutOf es gap c []).cdBytes := rfl
+  unfold build
+  rw [e1, e2, e3]
+  simp only [layoutOf, List.append_nil, List.append_assoc]
+
+/-- **`writer_emits_layout`** (general form: from ANY writer state / device in step with a ghost state
+`g0` — a fresh writer, or the state `new_append` returns).  After a script of Level-1 calls, if the
+ghost can be closed (it is neither poisoned, nor stuck on an entry whose stored size does not fit a
+non-ZIP64 header — `finish` fails in both cases, `dead_finish_fails` / `stuck_finish_fails` /
+`overflow_finish_fails` —, nor `lost`: a panic outcome, a sink position ≥ 2^64 or a pre-1980 timestamp,
+all outside the property's quantifier) and `finish` returns `Ok`, then the live part
+of the sink is exactly the layout's bytes; the whole sink is the layout with the stale rest (at most
+`r` bytes) as `trailing`; and the writer is closed. -/
+theorem writer_emits_layout (ext : WExt) (calls : List Call) (hc : ∀ c ∈ calls, Level1 c)
+    (ha : ∀ c ∈ calls, c.Admissible) (r : Nat) (g0 : Ghost) (s0 : WState) (d0 : Dev)
+    (hI : Inv s0) (h0 : Lay r g0 s0 d0)
+    (es : List Spec.Zip.Entry) (gap c : Bytes)
+    (hg : (ghostOf ext g0 calls (runCalls ext calls s0 none d0).1).close ext = some (es, gap, c))
+    (v : Option Nat) (s' : WState) (d' : Dev)
+    (hfin : step ext .finish (runCalls ext calls s0 none d0).2.1 none
+      (runCalls ext calls s0 none d0).2.2 = (.ok (.ok v, s'), d')) :
+    d'.buf.take d'.pos = build (layoutOf es gap c []) ∧
+    d'.buf = build (layoutOf es gap c (d'.buf.drop d'.pos)) ∧
+    d'.pos ≤ d'.buf.length ∧ d'.buf.length ≤ d'.pos + r ∧
+    c.length ≤ 65535 ∧ s'.inner = .closed := by
+  have hL := run_lay ext calls hc ha r g0 s0 d0 hI h0
+  generalize ghostOf ext g0 calls (runCalls ext calls s0 none d0).1 = g at hL hg
+  generalize (runCalls ext calls s0 none d0).2.1 = s at hL hfin
+  generalize (runCalls ext calls s0 none d0).2.2 = d at hL hfin
+  have h3 := (C12.mapStep_wsat (fun _ => (none : Option Nat)) (finish ext) s none d _
+    (fun rs d' => ∀ v, rs.1 = .ok v →
+      (¬ c.length > 65535 ∧ LiveAt d' d'.pos (build (layoutOf es gap c [])) r) ∧ rs.2.inner = .closed)
+    (finish_ghost ext hL hg) (by
+      intro r1 s1 d1 ⟨hpost, hcl⟩
+      cases r1 with
+      | error e => intro v hv; cases hv
       | ok u =>
-        dsimp only
-        cases s1.inner with
-        | closed => rfl
-        | storer enc => cases enc <;> rfl
-        | compressor m l enc p => rfl
-    | err e => rfl
-    | panic site => rfl
+        intro v _
+        refine ⟨?_, hcl rfl⟩
+        unfold FinalPost at hpost
+        by_cases hlong : c.length > 65535
+        · rw [if_pos hlong] at hpost; cases hpost.1
+        · rw [if_neg hlong] at hpost; exact ⟨hlong, hpost.2⟩)).elim hfin
+  obtain ⟨⟨hclen, hl⟩, hcl⟩ := h3 v rfl
+  refine ⟨hl.eq, ?_, hl.le, hl.rest, by omega, hcl⟩
+  rw [build_trailing, ← hl.eq, List.take_append_drop]
 
-/-- Dropping an open writer whose `finalize` succeeds = `finalize` (a successful `finalize` leaves the
-plain storer behind: no encoder is alive that could write when the field is dropped). -/
-theorem drop_device (ext : WExt) (s : WState) (hs : s.inner.isClosed = false) (fa : Option Nat) (d : Dev)
-    (u : Unit) (s1 : WState) (d1 : Dev) (hf : finalize ext s fa d = (.ok (.ok u, s1), d1))
-    (hplain : s1.inner = .storer none) :
-    (dropWriter ext s fa d).2 = d1 := by
-  unfold dropWriter
-  simp only [hs, Bool.false_eq_true, if_false]
-  rw [M.bind_apply, hf]
-  unfold dropInner
-  simp only [hplain]
-  rfl
+/-- **`writer_emits_layout`, fresh writer** (`ZipWriter::new` on an empty sink): the sink is exactly
+`build (layoutOf es gap comment [])`. -/
+theorem writer_emits_layout_fresh (ext : WExt) (calls : List Call) (hc : ∀ c ∈ calls, Level1 c)
+    (ha : ∀ c ∈ calls, c.Admissible)
+    (es : List Spec.Zip.Entry) (gap c : Bytes)
+    (hg : (ghostOf ext (.idle [] [] []) calls
+      (runCalls ext calls WState.init none (Dev.ofBytes [])).1).close ext = some (es, gap, c))
+    (v : Option Nat) (s' : WState) (d' : Dev)
+    (hfin : step ext .finish (runCalls ext calls WState.init none (Dev.ofBytes [])).2.1 none
+      (runCalls ext calls WState.init none (Dev.ofBytes [])).2.2 = (.ok (.ok v, s'), d')) :
+    d'.buf = build (layoutOf es gap c []) ∧ c.length ≤ 65535 ∧ s'.inner = .closed := by
+  obtain ⟨h1, _, h3, h4, h5, h6⟩ := writer_emits_layout ext calls hc ha 0 _ _ _ inv_init lay_init_empty
+    es gap c hg v s' d' hfin
+  refine ⟨?_, h5, h6⟩
+  rw [← h1, List.take_of_length_le (by omega)]
 
-/-- **`finish()` and drop produce identical bytes** — for every open writer state, every sink and
-every fault index on which finalisation succeeds: the same sink contents, position and I/O call
-count.  (When finalisation FAILS, `finish` returns the error and the writer lives on; a dropped writer
-has nobody to report to — and a still-active Deflate/Bzip2 encoder then flushes its stream into the
-sink from its own destructor, `Model.dropInner`.)  `hplain` holds whenever `finalize` succeeds from an
-`Inv` state (`Lemmas/WriterSat.finalize_sat`); it is kept explicit here to keep this file elementary. -/
+/-- **`finish` succeeds** (total form: it returns, and returns `Ok`, unless the sink position has left
+the `u64` range): after a Level-1 script, when the ghost closes and the comment fits its length
+field, `finish` returns `Ok` and the live part of the sink is the layout. -/
+theorem finish_succeeds (ext : WExt) (calls : List Call) (hc : ∀ c ∈ calls, Level1 c)
+    (ha : ∀ c ∈ calls, c.Admissible) (r : Nat) (g0 : Ghost) (s0 : WState) (d0 : Dev)
+    (hI : Inv s0) (h0 : Lay r g0 s0 d0)
+    (es : List Spec.Zip.Entry) (gap c : Bytes) (hclen : c.length ≤ 65535)
+    (hg : (ghostOf ext g0 calls (runCalls ext calls s0 none d0).1).close ext = some (es, gap, c)) :
+    Sat (finish ext (runCalls ext calls s0 none d0).2.1) none (runCalls ext calls s0 none d0).2.2
+      (fun rs d' => rs.1 = .ok () ∧ d'.buf.take d'.pos = build (layoutOf es gap c [])) := by
+  have hL := run_lay ext calls hc ha r g0 s0 d0 hI h0
+  have hI' := (C12.run_inv ext calls ha s0 hI none d0).1
+  apply Sat.mono ((finish_sat ext _ hI' none _).andW (finish_ghost ext hL hg))
+  intro rs d' ⟨_, hpost, _⟩
+  unfold FinalPost at hpost
+  rw [if_neg (by omega)] at hpost
+  exact ⟨hpost.1, hpost.2.eq⟩
+
+/-- A poisoned writer (the ghost is `dead`: a refused method/level, or more than 4 GiB written to a
+non-ZIP64 entry) cannot be finished: `finish` returns an error and writes nothing. -/
+theorem dead_finish_fails (ext : WExt) (calls : List Call) (hc : ∀ c ∈ calls, Level1 c)
+    (ha : ∀ c ∈ calls, c.Admissible) (r : Nat) (g0 : Ghost) (s0 : WState) (d0 : Dev)
+    (hI : Inv s0) (h0 : Lay r g0 s0 d0)
+    (hg : ghostOf ext g0 calls (runCalls ext calls s0 none d0).1 = .dead) :
+    ∃ e, finish ext (runCalls ext calls s0 none d0).2.1 =
+      pure (.error e, (runCalls ext calls s0 none d0).2.1) := by
+  have hL := run_lay ext calls hc ha r g0 s0 d0 hI h0
+  rw [hg] at hL
+  exact finish_closed ext hL
+
+/-- A stuck writer (the ghost is `stuck`: a non-ZIP64 entry with more than 0xFFFFFFFF stored bytes —
+`update_local_file_header` refuses it BEFORE touching the sink, so nothing is corrupted and every later
+close is refused the same way) cannot be finished either: `finish` returns an error. -/
+theorem stuck_finish_fails (ext : WExt) (calls : List Call) (hc : ∀ c ∈ calls, Level1 c)
+    (ha : ∀ c ∈ calls, c.Admissible) (r : Nat) (g0 : Ghost) (s0 : WState) (d0 : Dev)
+    (hI : Inv s0) (h0 : Lay r g0 s0 d0) (ss n : Nat) (wf : Bool)
+    (hg : ghostOf ext g0 calls (runCalls ext calls s0 none d0).1 = .stuck ss n wf)
+    (rs : Except ZErr Unit × WState) (d' : Dev)
+    (hfin : finish ext (runCalls ext calls s0 none d0).2.1 none (runCalls ext calls s0 none d0).2.2 =
+      (.ok rs, d')) : ∃ e, rs.1 = .error e := by
+  have hL := run_lay ext calls hc ha r g0 s0 d0 hI h0
+  rw [hg] at hL
+  exact (finish_stuck ext hL).elim hfin
+
+/-- … and so does `finish` called directly on the open entry that cannot be closed (the ghost is still
+`opened`, `Ghost.stuckAt` says the close is refused). -/
+theorem overflow_finish_fails (ext : WExt) (calls : List Call) (hc : ∀ c ∈ calls, Level1 c)
+    (ha : ∀ c ∈ calls, c.Admissible) (r : Nat) (g0 : Ghost) (s0 : WState) (d0 : Dev)
+    (hI : Inv s0) (h0 : Lay r g0 s0 d0) (ss n : Nat) (wf : Bool)
+    (hg : (ghostOf ext g0 calls (runCalls ext calls s0 none d0).1).stuckAt ext = some (ss, n, wf))
+    (rs : Except ZErr Unit × WState) (d' : Dev)
+    (hfin : finish ext (runCalls ext calls s0 none d0).2.1 none (runCalls ext calls s0 none d0).2.2 =
+      (.ok rs, d')) : ∃ e, rs.1 = .error e := by
+  have hL := run_lay ext calls hc ha r g0 s0 d0 hI h0
+  exact (finish_ghost_stuck ext hL hg).elim hfin
+
+/-- **`finish_eq_drop`** — `finish` and `Drop` leave identical sinks (contents, position, I/O call
+count), on every device and for every fault index on which finalisation SUCCEEDS (`hplain`: a
+successful `finalize` leaves the plain storer behind — `finalize_sat` gives it from any `Inv` state).
+When finalisation fails, `finish` reports the error and the writer lives on; a dropped writer's
+still-alive Deflate/Bzip2 encoder then flushes its stream into the sink from its destructor
+(`Model.dropInner`), so the statement is about successful finalisation. -/
 theorem finish_eq_drop (ext : WExt) (s : WState) (hs : s.inner.isClosed = false) (fa : Option Nat)
     (d : Dev) (u : Unit) (s1 : WState) (d1 : Dev)
     (hf : finalize ext s fa d = (.ok (.ok u, s1), d1)) (hplain : s1.inner = .storer none) :
-    (finish ext s fa d).2 = (dropWriter ext s fa d).2 := by
-  rw [finish_device, drop_device ext s hs fa d u s1 d1 hf hplain, hf]
+    (finish ext s fa d).2 = (dropWriter ext s fa d).2 := finish_drop_dev ext s hs fa d u s1 d1 hf hplain
 
-/-- Dropping a writer that was already finished (or poisoned) touches nothing. -/
-theorem drop_after_finish_noop (ext : WExt) (s : WState) (hs : s.inner.isClosed = true)
-    (fa : Option Nat) (d : Dev) : dropWriter ext s fa d = (.ok (.ok (), s), d) := by
-  unfold dropWriter
-  simp only [hs, if_true]
-  rfl
+/-- … and so what `Drop` leaves after a script is the same layout. -/
+theorem drop_emits_layout (ext : WExt) (calls : List Call) (hc : ∀ c ∈ calls, Level1 c)
+    (ha : ∀ c ∈ calls, c.Admissible) (r : Nat) (g0 : Ghost) (s0 : WState) (d0 : Dev)
+    (hI : Inv s0) (h0 : Lay r g0 s0 d0)
+    (es : List Spec.Zip.Entry) (gap c : Bytes) (hclen : c.length ≤ 65535)
+    (hg : (ghostOf ext g0 calls (runCalls ext calls s0 none d0).1).close ext = some (es, gap, c))
+    (v : Option Nat) (s' : WState) (d' : Dev)
+    (hfin : step ext .drop (runCalls ext calls s0 none d0).2.1 none
+      (runCalls ext calls s0 none d0).2.2 = (.ok (.ok v, s'), d')) :
+    d'.buf.take d'.pos = build (layoutOf es gap c []) ∧
+    d'.buf = build (layoutOf es gap c (d'.buf.drop d'.pos)) := by
+  have hL := run_lay ext calls hc ha r g0 s0 d0 hI h0
+  generalize ghostOf ext g0 calls (runCalls ext calls s0 none d0).1 = g at hL hg
+  generalize (runCalls ext calls s0 none d0).2.1 = s at hL hfin
+  generalize (runCalls ext calls s0 none d0).2.2 = d at hL hfin
+  have h3 := (C12.mapStep_wsat (fun _ => (none : Option Nat)) (dropWriter ext) s none d _
+    (fun _ d' => LiveAt d' d'.pos (build (layoutOf es gap c [])) r)
+    (drop_ghost ext hL hg (by omega)) (by
+      intro r1 s1 d1 ⟨_, hpost⟩
+      exact hpost)).elim hfin
+  refine ⟨h3.eq, ?_⟩
+  rw [build_trailing, ← h3.eq, List.take_append_drop]
 
-example : (WState.init).inner.isClosed = false := rfl
+/-! ## 2. The round trip -/
 
-/-- **The central directory `finish()` writes is the log of the successful calls** (fragment without
-extra-data mode, fault-free sink; `Props.C12.files_track_calls_partial`): entries in call order, each
-with `crc32 = CRC-32(bytes successfully written)` and `uncompressed_size = their number`; raw copies
-with their source's values. -/
-theorem directory_is_the_calls_partial (ext : WExt) (calls : List C12.Call)
-    (hc : ∀ c ∈ calls, c.InFragment) (d : Dev) (v : Option Nat) (s' : WState) (d' : Dev)
-    (hfin : C12.step ext .finish (C12.runCalls ext calls WState.init none d).2.1 none
-      (C12.runCalls ext calls WState.init none d).2.2 = (.ok (.ok v, s'), d')) :
-    Forall2 Closed (C12.logOf [] calls (C12.runCalls ext calls WState.init none d).1) s'.files :=
-  C12.files_track_calls_partial ext calls hc d v s' d' hfin
+/-- the ghost after the script, and the origins of the entries `finish` emits -/
+def finalGhost (ext : WExt) (calls : List Call) : Ghost :=
+  ghostOf ext (.idle [] [] []) calls (runCalls ext calls WState.init none (Dev.ofBytes [])).1
+
+def finalOrigins (ext : WExt) (calls : List Call) : List Origin :=
+  (finalGhost ext calls).closeOrigins
+    (originsOf ext (.idle [] [] []) [] calls (runCalls ext calls WState.init none (Dev.ofBytes [])).1)
+
+/-- **`write_read_roundtrip`** (C01, archive level).  A fresh writer, any script of Level-1 calls
+(raw copies of non-AES sources), `finish` returns `Ok`.  Under the property's own exclusion
+"names/comments/data do not embed record signatures" (`NoFalseSig`), a total size below 2^63 and
+plaintext sizes below 2^63:
+* the sink is exactly the layout `L = layoutOf es gap c []` computed from the calls;
+* `ZipArchive::new` on the sink succeeds and returns the entries of `L` in order (`viewOf L`: names,
+  methods, times, attributes, sizes, CRCs as recorded — spelled out by `entry_view_fields` below),
+  one per origin, `offset() = 0`, and the archive comment set by the last `set_comment`;
+* `Layout.Fits` and `Layout.Readable` are DISCHARGED from the writer's own checks (they are
+  conclusions, not hypotheses). -/
+theorem write_read_roundtrip (ext : WExt) (calls : List Call) (hc : ∀ c ∈ calls, Level1R c)
+    (ha : ∀ c ∈ calls, c.Admissible) (es : List Spec.Zip.Entry) (gap c : Bytes)
+    (hg : (finalGhost ext calls).close ext = some (es, gap, c))
+    (v : Option Nat) (s' : WState) (d' : Dev)
+    (hfin : step ext .finish (runCalls ext calls WState.init none (Dev.ofBytes [])).2.1 none
+      (runCalls ext calls WState.init none (Dev.ofBytes [])).2.2 = (.ok (.ok v, s'), d'))
+    (hS : C03.NoFalseSig (layoutOf es gap c []))
+    (hsize : (build (layoutOf es gap c [])).length < 2 ^ 63)
+    (hu : ∀ e ∈ es, e.usize.toNat < 2 ^ 63) :
+    d'.buf = build (layoutOf es gap c []) ∧
+    (layoutOf es gap c []).Fits ∧ (layoutOf es gap c []).Readable ∧
+    Forall2 (OriginRel ext) (finalOrigins ext calls) es ∧
+    ∃ d1, openArchive.runPure (Dev.ofBytes d'.buf) = (.ok (archiveOf (layoutOf es gap c [])), d1) ∧
+      d1.buf = build (layoutOf es gap c []) ∧
+      (archiveOf (layoutOf es gap c [])).comment = c ∧
+      (archiveOf (layoutOf es gap c [])).offset = 0 ∧
+      (archiveOf (layoutOf es gap c [])).files = viewOf (layoutOf es gap c []) ∧
+      (archiveOf (layoutOf es gap c [])).files.length = es.length := by
+  have hc1 : ∀ c ∈ calls, Level1 c := fun c h => (hc c h).level1
+  obtain ⟨hbuf, hclen, _⟩ := writer_emits_layout_fresh ext calls hc1 ha es gap c hg v s' d' hfin
+  have hgood : Good (finalGhost ext calls) :=
+    good_run ext calls _ _ hc (show Good (.idle [] [] []) from fun e he => by cases he)
+  obtain ⟨hF, hR⟩ := layout_fits_readable gap c [] (hgood.close hg) hclen hsize hu
+  have htr := traced_final (traced_run ext calls _ _ _ (traced_init ext [] [])) hg
+  obtain ⟨d1, h1, h2⟩ := C03.reader_on_wf _ hF hR hS (Or.inl rfl)
+  refine ⟨hbuf, hF, hR, htr, d1, by rw [hbuf]; exact h1, h2, rfl, rfl, rfl, ?_⟩
+  exact (C03.archive_fields _).2.2.2
+
+/-- Raw read-back: `by_index_raw(i)` on the produced archive returns exactly the stored bytes of
+entry `i` (for a raw copy: the bytes that were copied). -/
+theorem roundtrip_entry_raw {es : List Spec.Zip.Entry} {gap c : Bytes}
+    (hF : (layoutOf es gap c []).Fits) (i : Nat) (e : Spec.Zip.Entry) (he : es[i]? = some e)
+    (d : Dev) (hd : d.buf = build (layoutOf es gap c [])) :
+    ∃ ds d', (byIndexRaw (archiveOf (layoutOf es gap c [])) i).runPure d = (.ok (ds, e.data), d') ∧
+      d'.buf = build (layoutOf es gap c []) := by
+  obtain ⟨off, d', _, h2, h3⟩ := C03.reader_entry_raw _ hF i e he d hd
+  exact ⟨_, d', h2, h3⟩
+
+theorem fromU16_toU16 {m : Method} (h : writable m = true) : Method.fromU16 m.toU16 = m := by
+  cases m with
+  | aes => simp [writable] at h
+  | unsupported v => simp [writable] at h
+  | stored => decide
+  | deflated => decide
+  | bzip2 => decide
+  | zstd => decide
+
+/-- **Reading entry `i` returns its plaintext.**  Entry `i` was started through the writer with
+record `f` (unencrypted, a method the writer has an encoder for) and the `write` calls delivered
+`plain`; the codec round-trips on it (`Stored` is the identity; for the compressing methods this is
+the external-code hypothesis `decode m (compress m l p) = p`).  Then `by_index(i)` read to the end
+returns exactly `plain` — the CRC check against the recorded CRC-32 passes. -/
+theorem roundtrip_entry_plain (wext : WExt) (rext : Ext) {es : List Spec.Zip.Entry} {gap c : Bytes}
+    (hF : (layoutOf es gap c []).Fits) (i : Nat) (e : Spec.Zip.Entry) (he : es[i]? = some e)
+    (f : FileData) (plain : Bytes) (hrel : OriginRel wext (.written f plain) e)
+    (henc : f.encrypted = false) (hw : writable f.method = true)
+    (hcodec : rext.decode f.method (dataOf wext f plain) = .ok plain)
+    (pw : Option Bytes) (d : Dev) (hd : d.buf = build (layoutOf es gap c [])) :
+    ∃ ds d', (byIndexRead rext (archiveOf (layoutOf es gap c [])) i pw).runPure d =
+        (.ok (.ok (ds, .ok plain)), d') ∧ d'.buf = build (layoutOf es gap c []) := by
+  obtain ⟨dp, gap0, _, hre⟩ := hrel
+  have hm : Method.fromU16 e.method = f.method := by rw [hre]; exact fromU16_toU16 hw
+  refine C03.reader_entry_decoded rext _ hF i e he pw ?_ ?_ plain ?_ ?_ d hd
+  · rw [hre]; exact flagOf_plain _ henc
+  · rw [hm]; cases hf : f.method <;> simp_all [writable, Method.decodable]
+  · rw [hm, hre]; exact hcodec
+  · rw [hre]; rfl
+
+/-- What the reader reports for an entry written through the writer, field by field: the raw name,
+the method, the DOS time, the attributes (hence the Unix mode), CRC-32 = CRC-32 of the plaintext,
+uncompressed size = its length, compressed size = length of the stored bytes. -/
+theorem entry_view_fields (wext : WExt) (e : Spec.Zip.Entry) (f : FileData) (plain : Bytes)
+    (hrel : OriginRel wext (.written f plain) e) (hw : writable f.method = true) (off pre chs : Nat) :
+    let v := viewEntry e off pre chs
+    v.fileNameRaw = f.fileName ∧ v.method = f.method ∧
+    v.crc32 = Spec.Crc32.crc32 plain ∧ v.uncompressedSize = UInt64.ofNat plain.length ∧
+    v.compressedSize = UInt64.ofNat (dataOf wext f plain).length ∧
+    (∃ dp, f.time.datepart = some dp ∧ v.time = DateTime.fromMsdos dp f.time.timepart) ∧
+    v.externalAttributes = f.externalAttributes ∧
+    v.unixMode.map UInt32.toNat =
+      unixModeSpec ((f.system.discr <<< 8) ||| f.versionMadeBy.toUInt16) f.externalAttributes := by
+  obtain ⟨dp, gap0, hdp, hre⟩ := hrel
+  subst hre
+  refine ⟨rfl, fromU16_toU16 hw, rfl, rfl, rfl, ⟨dp, hdp, rfl⟩, rfl, ?_⟩
+  exact C03.unix_mode_spec _ off pre chs
+
+/-- The record `start_entry` pushes carries the call's arguments: name, method, level, time, and the
+permissions in the upper half of the external attributes, host system Unix. -/
+theorem mkRec_fields (name : Bytes) (o : FileOptions) (raw : Option (UInt32 × UInt64 × UInt64))
+    (hs : Nat) (ds : UInt64) :
+    (mkRec name o raw hs ds).fileName = name ∧ (mkRec name o raw hs ds).method = o.method ∧
+    (mkRec name o raw hs ds).level = o.level ∧ (mkRec name o raw hs ds).time = o.time ∧
+    (mkRec name o raw hs ds).externalAttributes = (o.permissions.getD 0o100644) <<< 16 ∧
+    (mkRec name o raw hs ds).system = .unix ∧
+    (mkRec name o raw hs ds).encrypted = o.encryptWith.isSome :=
+  ⟨rfl, rfl, rfl, rfl, rfl, rfl, rfl⟩
+
+/-! ## 3. Non-vacuity: concrete scripts evaluated through the model by the kernel -/
+
+/-- a toy codec: "compression" appends a marker byte, decoding strips it -/
+def wext1 : WExt := ⟨fun _ _ b => b ++ [0xEE], fun _ b => b⟩
+def rext1 : Ext :=
+  ⟨fun m b => if m = .stored then .ok b else .ok b.dropLast, fun _ _ _ => .ok none,
+   fun _ _ _ _ => .ok none⟩
+
+/-- the source entry of a raw copy (Deflated, 3 stored bytes) -/
+def srcRec : FileData :=
+  { (default : FileData) with method := .deflated, crc32 := 0x12345678, compressedSize := 3, uncompressedSize := 7, time := DateTime.default }
+
+/-- misuse (write before any file, write after a directory, `end_extra_data` never begun) mixed with a
+stored file written in two pieces, a directory, a "compressed" file and a comment -/
+def script1 : List Call :=
+  [.write [9], .startFile [0x61] (C12.opts .stored none), .write [1, 2, 3], .write [4],
+   .addDirectory [0x64] (C12.opts .stored none), .write [7], .endExtraData,
+   .startFile [0x62] (C12.opts .deflated (some 6)), .write [5, 6], .setComment [0x68, 0x69]]
+
+/-- a raw copy, a stray `write` after it (its byte becomes dead bytes before the next record), a symlink -/
+def script2 : List Call :=
+  [.rawCopy srcRec [0xA, 0xB, 0xC] [0x72], .write [0x99],
+   .addSymlink [0x6c] [0x61] (C12.opts .stored none)]
+
+def finishDev (ext : WExt) (calls : List Call) : Option Dev :=
+  let run := runCalls ext calls WState.init none (Dev.ofBytes [])
+  match step ext .finish run.2.1 none run.2.2 with
+  | (.ok (.ok _, _), d') => some d'
+  | _ => none
+
+example : ∀ c ∈ script1 ++ script2, Level1R c ∧ c.Admissible := by decide
+
+/-- `writer_emits_layout_fresh` on `script1`: its hypotheses hold (the ghost closes, `finish` is `Ok`),
+and the conclusion is what the model computes; the entries are the expected ones. -/
+example :
+    (match (finalGhost wext1 script1).close wext1, finishDev wext1 script1 with
+     | some (es, gap, c), some d' =>
+       d'.buf == build (layoutOf es gap c []) && c == [0x68, 0x69] &&
+       es.map Spec.Zip.Entry.name == [[0x61], [0x64, 0x2f], [0x62]] &&
+       es.map Spec.Zip.Entry.data == [[1, 2, 3, 4], [], [5, 6, 0xEE]]
+     | _, _ => false) = true := by decide +kernel
+
+example :
+    (match (finalGhost wext1 script2).close wext1, finishDev wext1 script2 with
+     | some (es, gap, c), some d' =>
+       d'.buf == build (layoutOf es gap c []) &&
+       es.map Spec.Zip.Entry.name == [[0x72], [0x6c]] &&
+       es.map Spec.Zip.Entry.data == [[0xA, 0xB, 0xC], [0x61]] &&
+       es.map Spec.Zip.Entry.gapBefore == [[], [0x99]]
+     | _, _ => false) = true := by decide +kernel
+
+/-- the remaining hypotheses of `write_read_roundtrip` on `script1` -/
+example :
+    (match (finalGhost wext1 script1).close wext1 with
+     | some (es, gap, c) =>
+       decide (Spec.Zip.NoFalseSig (layoutOf es gap c [])) &&
+       decide ((build (layoutOf es gap c [])).length < 2 ^ 63) &&
+       decide (∀ e ∈ es, e.usize.toNat < 2 ^ 63)
+     | none => false) = true := by decide +kernel
+
+/-- … and the reader model really returns the expected entries and the plaintext of entry 2 (through
+the toy decoder) on the bytes the writer model produced -/
+example :
+    (match finishDev wext1 script1 with
+     | some d' =>
+       (match openArchive.runPure (Dev.ofBytes d'.buf) with
+        | (.ok a, d1) =>
+          a.comment == [0x68, 0x69] && a.files.map (·.fileName) == [[0x61], [0x64, 0x2f], [0x62]] &&
+          a.files.map (·.method) == [.stored, .stored, .deflated] &&
+          a.files.map (·.unixMode) == [some 0o100644, some 0o40755, some 0o100644] &&
+          a.files.map (·.crc32) == [Spec.Crc32.crc32 [1, 2, 3, 4], 0, Spec.Crc32.crc32 [5, 6]] &&
+          (match ((byIndexRead rext1 a 2 none).runPure d1).1 with
+           | .ok (.ok (_, .ok content)) => content == [5, 6]
+           | _ => false)
+        | _ => false)
+     | none => false) = true := by decide +kernel
+
+/-- the origins of `script1`: three entries written through the writer, with their plaintexts -/
+example :
+    (match finalOrigins wext1 script1 with
+     | [.written f1 p1, .written f2 p2, .written f3 p3] =>
+       f1.fileName == [0x61] && p1 == [1, 2, 3, 4] && f2.fileName == [0x64, 0x2f] && p2 == [] &&
+       f3.fileName == [0x62] && p3 == [5, 6] && f3.method == .deflated &&
+       !f1.encrypted && writable f3.method &&
+       (match rext1.decode f3.method (dataOf wext1 f3 p3) with | .ok b => b == p3 | _ => false)
+     | _ => false) = true := by decide +kernel
+
+/-- The general form of `writer_emits_layout` applies to the state `new_append` REALLY returns (the
+model's `newAppend` run on the bytes the writer model produced for `oldScript`): shape (A) of the
+invariant holds with `done` = the old entries (`layIdleB_sound`), so does the C12 invariant
+(`inv_idle`); and after `set_comment("")` + `finish` the sink is the layout of the old entries with the
+40 bytes of the old, longer end record left over as `trailing`. -/
+def oldScript : List Call :=
+  [.startFile [0x61] (C12.opts .stored none), .write [1, 2, 3], .setComment (List.replicate 40 0x41)]
+
+example :
+    (match (finalGhost wext1 oldScript).close wext1, finishDev wext1 oldScript with
+     | some (es, gap, c), some d0 =>
+       (match newAppend none (Dev.ofBytes d0.buf) with
+        | (.ok s, d) =>
+          layIdleB es gap s d && s.comment == c && !s.centralOnly &&
+          s.files.all (fun f => decide (¬ f.time.year < 1980)) &&
+          (let calls : List Call := [.setComment []]
+           let run := runCalls wext1 calls s none d
+           match (ghostOf wext1 (.idle es gap s.comment) calls run.1).close wext1,
+             step wext1 .finish run.2.1 none run.2.2 with
+           | some (es', gap', c'), (.ok (.ok _, _), d') =>
+             d'.buf == build (layoutOf es' gap' c' (d'.buf.drop d'.pos)) &&
+             d'.buf.take d'.pos == build (layoutOf es' gap' c' []) &&
+             (d'.buf.drop d'.pos).length == 40 && es'.length == 1 && c' == []
+           | _, _ => false)
+        | _ => false)
+     | _, _ => false) = true := by decide +kernel
+
+/-- a poisoned script: an unsupported method makes `start_file` fail and the ghost `dead`;
+`finish` then fails (`dead_finish_fails`) -/
+example :
+    (match finalGhost wext1 [.startFile [0x61] (C12.opts (.unsupported 1) none)] with
+     | .dead => true
+     | _ => false) = true ∧
+    finishDev wext1 [.startFile [0x61] (C12.opts (.unsupported 1) none)] = none := by decide +kernel
 
 end ZipVerif.Props.C01
